@@ -27,12 +27,15 @@ def one(job):
     return job, replay_file(pid, fn)
 
 
+KNOWN_OBS = {(k.get("property"), k.get("obligation")) for k in json.load(open("/verif/known_findings.json"))["findings"] if k.get("status") == "known"}
 bad = []
 with ThreadPoolExecutor(max_workers=int(os.environ.get("SWEEP_JOBS", "12"))) as ex:
     for (pid, i, sm), rep in ex.map(one, jobs):
         tried = rep.get("tried") or [rep]
         exc = tried[0].get("exception") if tried else None
-        if rep.get("reproduced"):
+        if rep.get("reproduced") and (pid, sm["obligation"]) in KNOWN_OBS:
+            print("known    ", pid, sm["obligation"], "(a listed known finding shows on this witness)", flush=True)
+        elif rep.get("reproduced"):
             bad.append((pid, sm["obligation"]))
             print("DISAGREES", pid, sm["obligation"], json.dumps(sm["param"])[:160], rep.get("failed_atoms"), str(rep.get("exception"))[:300], flush=True)
         elif exc:
